@@ -34,9 +34,9 @@ def opOfJson (j : Json) : Except String Op := do
   | "req" => pure (.req (← opKOfStr (← getStr j "k")) (← getBool j "fail"))
   | "roots" => pure .rootsChanged
   | "sendInitialized" => pure .sendInitialized
-  | "terminate" => pure .terminate
+  | "terminate" => pure (.terminate (match j.getObjVal? "fault" with | .ok (Json.bool b) => b | _ => false))
   | "restart" => pure .restart
-  | "close" => pure .close
+  | "close" => pure (.close (match j.getObjVal? "fault" with | .ok (Json.bool b) => b | _ => false))
   | t => throw s!"client op {t}"
 
 def strOfRes : Res → String
@@ -66,7 +66,7 @@ def handle (op : String) (j : Json) : Except String Json := do
   | "client" =>
     let k ← kindOfStr (← getStr j "kind")
     let ops ← (← getArr j "ops").toList.mapM opOfJson
-    let G := guardsOf Mcp.Gen.clientOps k
+    let G := guardsOf Mcp.Gen.clientOps Mcp.Gen.clientLifecycleFacts k
     let outs := (trace G k {} ops).map (fun x =>
       Json.mkObj [("res", Json.str (strOfRes x.1)), ("state", Json.str (strOfState x.2.1)),
         ("wire", Json.arr (x.2.2.map (fun m => Json.str (strOfMsg m))).toArray)])
